@@ -468,6 +468,8 @@ def r15l(ck, prog):
 
 def run(ck, progs):
     describe(ck)
+    ck.rule("R15m", "the comparator of the output lines compares block and row key separately, or packs them with a factor of at least 2^31")
+    ck.rule("R15n", "a comparison of num_line with alloc_num_lines guards only the growth of the line buffer: no line is written or skipped depending on it")
     ck.rule("R15l", "the label of a block row is copied from the name up to its terminator only (strnlen/strlen bound or a NUL test): it is the string the header lines print")
     ck.rule("R15j", "the writers are reached only for an msa whose rows have been rendered (status FINAL): nothing is written from ungapped residues with alnlen 0 (= R01d)")
     ck.rule("R15h", "a header line that did not fit is written again with a size larger than what the first attempt needed")
@@ -481,6 +483,8 @@ def run(ck, progs):
         ck.attempt(r15h, ck, prog)
         ck.attempt(r15i, ck, prog)
         ck.attempt(r15l, ck, prog)
+        ck.attempt(r15m, ck, prog)
+        ck.attempt(r15n, ck, prog)
         from . import c01
         ck.borrow(c01.r01d, prog, "R15j", ("R01d",))
     return ("Reaching-definition agreement inside write_msa_msf between the header's declared length, the checksum spans "
@@ -646,6 +650,68 @@ def r15f(ck, prog):
                              "10000 and the partial sums are then added without a final reduction - with several threads the value "
                              "printed after 'Check:' exceeds the sum of the row checksums modulo 10000" % F.name, prog.config)
     ck.floor("R15f", n, 1, "GCG checksum functions")
+
+
+def r15m(ck, prog):
+    """the comparator that orders the output lines compares the block first and the row key second, each on its own - or, if it
+    packs both into one number, the factor leaves room for every row key (>= 2^31): block*65536 + seq_id makes rows 65536.. of one
+    block sort into the next"""
+    cmps = set()
+    for nm in ("write_msa_clu", "write_msa_msf"):
+        for G in writer_closure(prog, nm):
+            for c in G.body.calls("qsort"):
+                for a in c.args:
+                    a0 = a.strip(casts=True)
+                    if a0.k == "DeclRefExpr" and a0.d.get("dk") == "Fn":
+                        cmps.add(a0.d["name"])
+    if not cmps:
+        raise AnalysisBroken("R15m slot: the writers pass no comparator to qsort")
+    n = 0
+    for cn in sorted(cmps):
+        C = prog.fn(cn)
+        n += 1
+        where = site(prog, C, "line order")
+        packed = []
+        for b in C.body.find("BinaryOperator"):
+            if b.d["op"] in ("*", "<<") and any(m.k == "MemberExpr" and m.d.get("field") == "block" for m in b.kids[0].walk()) and const_value(b.kids[1]) is not None:
+                f_ = const_value(b.kids[1]) if b.d["op"] == "*" else 2 ** const_value(b.kids[1])
+                packed.append((b, f_))
+            elif b.d["op"] == "*" and any(m.k == "MemberExpr" and m.d.get("field") == "block" for m in b.kids[1].walk()) and const_value(b.kids[0]) is not None:
+                packed.append((b, const_value(b.kids[0])))
+        ck.inst("R15m", where, "%s orders lines by %s" % (cn, "a packed key (factor %s)" % [f_ for _, f_ in packed] if packed else "block, then row key"), prog.config)
+        for b, f_ in packed:
+            if f_ < 2 ** 31:
+                ck.violation("R15m", "R15m/%s/packed-key" % cn, site(prog, b, "key"),
+                             "%s combines block and row key as %s: a row key of %d or more (an alignment with that many sequences) reaches "
+                             "into the next block's range, rows of two blocks interleave and the separator lands inside a block" % (
+                                 cn, b.text()[:50], f_), prog.config)
+    ck.floor("R15m", n, 1, "comparators of output lines")
+
+
+def r15n(ck, prog):
+    """whether a line is written does not depend on how full the line buffer is: a comparison of num_line with alloc_num_lines
+    guards the call that grows the buffer and nothing else"""
+    n = 0
+    for nm in ("write_msa_clu", "write_msa_msf"):
+        for G in writer_closure(prog, nm):
+            for ifs in G.body.find("IfStmt"):
+                c = ifs.child("cond")
+                fields = {m.d.get("field") for m in c.find("MemberExpr")}
+                if not {"num_line", "alloc_num_lines"} <= fields:
+                    continue
+                n += 1
+                body = [b_ for b_ in (ifs.child("then"), ifs.child("else")) if b_ is not None]
+                stores = [x for b_ in body for x in b_.walk() if (x.k == "BinaryOperator" and x.d["op"] == "=") or x.k == "CompoundAssignOperator" or
+                          (x.k == "UnaryOperator" and x.d["op"] in ("++", "--"))]
+                calls = [x.callee for b_ in body for x in b_.calls()]
+                where = site(prog, ifs, "capacity test")
+                ck.inst("R15n", where, "%s: capacity test guards %s" % (G.name, calls or "nothing"), prog.config)
+                if stores and G.name not in ("resize_line_buffer", "alloc_line_buffer"):
+                    ck.violation("R15n", "R15n/%s/capacity-gates-output" % nm, where,
+                                 "%s writes a line (%s) only when the line buffer has room (%s): when the line falls on a multiple of the "
+                                 "buffer's growth step it is silently left out - two blocks run together without the separator" % (
+                                     G.name, stores[0].text()[:40], c.text()[:50]), prog.config)
+    ck.floor("R15n", n, 2, "capacity tests in the block writers")
 
 
 def r15g(ck, prog):
